@@ -641,7 +641,10 @@ func (or Or) Match(m *Matcher, node any) (any, bool) {
 }
 
 func (not Not) Match(m *Matcher, node any) (any, bool) {
+	// Bindings made while matching the operand must not be observable.
+	m.push()
 	_, ok := match(m, not.Node, node)
+	m.pop()
 	if ok {
 		return nil, false
 	}
